@@ -48,6 +48,11 @@ def programs(t):
                     continue
                 lines.append(line(f, T(rep, e)))
                 lines.append(line(T(rep, e), f))
+        # exponents at the powers-of-two boundaries of the scaling factor (2^+-31..33, 2^+-62..64)
+        for rep in ['i32', 'i64', 'u64', 'i8']:
+            for e in ([-64, -63, -62, -32, -31, 31, 32, 62, 63, 64] if t or rep == 'i64' else [-63, 63, -32, 32]):
+                lines.append(line(f, T(rep, e)))
+                lines.append(line(T(rep, e), f))
         for bi in ['i8', 'u8', 'i16', 'i32', 'u32', 'i64', 'u64']:
             lines.append(line(bi, f))
         lines.append(line(f, T('i32', -2, 10)))
